@@ -51,6 +51,52 @@ struct RunOut {
     survivors: (usize, usize, Vec<String>),
     /// what is wrong with the output of the bystander writer, if anything
     bystander: Option<String>,
+    /// records that disappeared although older records stayed (seen between two operations)
+    vanished: Option<String>,
+    /// after each operation: file name (without .gz; of twins the plain file) -> (hash, length) of
+    /// the content; taken for number namings with the cleanup in the logging thread
+    snaps: Vec<std::collections::HashMap<String, (u64, usize)>>,
+}
+
+/// ids that are in the family files right now (of a plain file and its .gz twin the plain one counts)
+fn present_ids(names: &NameCfg) -> Vec<u64> {
+    let mut ids = Vec::new();
+    let Ok(obs) = family::observe(names) else { return ids };
+    let mut i = 0;
+    while i < obs.family.len() {
+        let f = &obs.family[i];
+        let twin = obs
+            .family
+            .get(i + 1)
+            .filter(|g| g.entry.kind == f.entry.kind && g.entry.gz != f.entry.gz);
+        let (pick, step) = match twin {
+            Some(g) => (if f.entry.gz { g } else { f }, 2),
+            None => (f, 1),
+        };
+        if let Ok(c) = &pick.content {
+            for line in String::from_utf8_lossy(c).split('\n') {
+                if let Some((0, 0, s)) = flw::parse_msg_id(line) {
+                    ids.push(s);
+                }
+            }
+        }
+        i += step;
+    }
+    ids.sort_unstable();
+    ids
+}
+
+fn snapshot(names: &NameCfg) -> std::collections::HashMap<String, (u64, usize)> {
+    let mut m = std::collections::HashMap::new();
+    let Ok(obs) = family::observe(names) else { return m };
+    for f in &obs.family {
+        let stem = f.entry.name.trim_end_matches(".gz").to_string();
+        if let Ok(c) = &f.content {
+            // the plain twin (sorted first) wins
+            m.entry(stem).or_insert((crate::rng::mix(c.iter().fold(0xcbf2_9ce4_8422_2325u64, |h, b| (h ^ u64::from(*b)).wrapping_mul(0x0000_0100_0000_01B3))), c.len()));
+        }
+    }
+    m
 }
 
 fn run_history(
@@ -87,6 +133,8 @@ fn run_history(
         file_of: std::collections::HashMap::new(),
         survivors: (0, 0, Vec::new()),
         bystander: None,
+        vanished: None,
+        snaps: Vec::new(),
     };
     // a bystander: a second, independent file writer used from the same thread, whose own file
     // operations are exempt from the fault plan; whatever happens to the writer under test, the
@@ -119,6 +167,18 @@ fn run_history(
             });
         });
     };
+    // Between two operations records may disappear only as the oldest ones that are there (the
+    // cleanup removes whole files from the old end). Watched where the cleanup itself is hit by
+    // faults and runs in the logging thread.
+    let watch = !cfg.clean_bg
+        && plan.iter().any(|p| p.name.starts_with("gz_") || p.name.starts_with("cleanup_"));
+    let mut prev_ids: Vec<u64> = Vec::new();
+    // what each file holds after each operation (compared with the fault-free run: a fault in the
+    // cleanup never changes what a file of a given name holds; number namings never re-use names)
+    let snap = !cfg.clean_bg
+        && cfg.names.naming.is_numbers()
+        && cfg.clean != Clean::Never
+        && (plan.is_empty() || watch);
     let mut seq = 0u64;
     let injected_len = || ctl::with_ctl(|c| c.injected.len());
     let injected_from = |n: usize| ctl::with_ctl(|c| c.injected[n..].to_vec());
@@ -150,6 +210,22 @@ fn run_history(
                 let _ = flw::take_error_channel();
             }
         }
+        if snap {
+            out.snaps.push(ctl::exempt(|| snapshot(&cfg.names)));
+        }
+        if watch && out.vanished.is_none() {
+            let cur = ctl::exempt(|| present_ids(&cfg.names));
+            let gone: Vec<u64> = prev_ids.iter().copied().filter(|i| !cur.contains(i)).collect();
+            let stayed_min = prev_ids.iter().copied().filter(|i| cur.contains(i)).min();
+            if let (Some(worst), Some(stayed)) = (gone.iter().max(), stayed_min) {
+                if *worst > stayed {
+                    out.vanished = Some(format!(
+                        "after operation {op:?} the records {gone:?} are gone although the older record {stayed} is still there"
+                    ));
+                }
+            }
+            prev_ids = cur;
+        }
     }
     // the faults have stopped: a tail of records that must make rotation resume
     ctl::with_ctl(|c| c.plan.clear());
@@ -160,6 +236,23 @@ fn run_history(
         driver.write(log::Level::Info, &m);
         out.tail_ids.push(seq);
         seq += 1;
+        if snap {
+            out.snaps.push(ctl::exempt(|| snapshot(&cfg.names)));
+        }
+        if watch && out.vanished.is_none() {
+            let cur = ctl::exempt(|| present_ids(&cfg.names));
+            let gone: Vec<u64> = prev_ids.iter().copied().filter(|i| !cur.contains(i)).collect();
+            let stayed_min = prev_ids.iter().copied().filter(|i| cur.contains(i)).min();
+            if let (Some(worst), Some(stayed)) = (gone.iter().max(), stayed_min) {
+                if *worst > stayed {
+                    out.vanished = Some(format!(
+                        "after tail record {} the records {gone:?} are gone although the older record {stayed} is still there",
+                        seq - 1
+                    ));
+                }
+            }
+            prev_ids = cur;
+        }
     }
     driver.shutdown();
     by_write(&mut by_expected);
@@ -436,6 +529,44 @@ pub fn run_case(ctx: &mut CaseCtx) -> CaseResult {
         let ctxt = format!("fault {kind:?} at {name} occurrence {from}..={to}");
         if let Some(d) = &out.damaged {
             res.violate("damaged-output", format!("C19/damaged-output/{facts}"), format!("{ctxt}: {d}"));
+            break;
+        }
+        // rotated files (everything but the file being written, whose content depends on the
+        // write mode's buffering) hold what they hold without the fault
+        if (name.starts_with("gz_") || name.starts_with("cleanup_")) && !out.snaps.is_empty() {
+            let mut diff = None;
+            'ops: for (i, (a, b)) in base.snaps.iter().zip(out.snaps.iter()).enumerate() {
+                for (fname, hb) in b {
+                    if fname.contains("rCURRENT") {
+                        continue;
+                    }
+                    if let Some(ha) = a.get(fname) {
+                        if ha != hb {
+                            diff = Some(format!(
+                                "after operation #{i} the file {fname} holds {} bytes, without the fault {} bytes (different content)",
+                                hb.1, ha.1
+                            ));
+                            break 'ops;
+                        }
+                    }
+                }
+            }
+            res.count("per_operation_file_comparisons_with_fault_free_run", out.snaps.len() as u64);
+            if let Some(d) = diff {
+                res.violate(
+                    "record-lost",
+                    format!("C19/record-lost/rotated-file-differs-from-fault-free-run/{facts}"),
+                    format!("{ctxt}: {d}"),
+                );
+                break;
+            }
+        }
+        if let Some(d) = &out.vanished {
+            res.violate(
+                "record-lost",
+                format!("C19/record-lost/vanished-from-the-middle/{facts}"),
+                format!("{ctxt}: {d}"),
+            );
             break;
         }
         if let Some(d) = &out.bystander {
